@@ -391,7 +391,7 @@ def run(ctx):
             # tests: `if x:`, `x is None`, `not x`, `a and x`
             while isinstance(up_, (ast.BoolOp, ast.UnaryOp)) and (not isinstance(up_, ast.UnaryOp) or isinstance(up_.op, ast.Not)):
                 chain_, up_ = up_, par_.get(id(up_))
-            if isinstance(up_, ast.Compare) and len(up_.ops) == 1 and isinstance(up_.ops[0], (ast.Is, ast.IsNot)):
+            if isinstance(up_, ast.Compare) and (chain_ is up_.left or chain_ in up_.comparators):
                 chain_, up_ = up_, par_.get(id(up_))
                 while isinstance(up_, (ast.BoolOp, ast.UnaryOp)):
                     chain_, up_ = up_, par_.get(id(up_))
